@@ -11,7 +11,6 @@ def run(ctx):
         ctx, res, PROFILE, n_quick=128, n_thorough=2048, steps=120, steps_thorough=240,
         relevant=lambda t: t[0] in ('oper', 'umode', 'kill', 'wallops', 'stats', 'die', 'squit'),
         nontrivial_rule='configurations with three operators (no mask / matching mask / non-matching mask) and default-mode variants (none, +O, +w, +iw, +o); OPER right/wrong in every field; MODE with every user-mode letter and sign on own and foreign nicks; nick changes to and from configured operator names followed by MODE +o/+O; KILL/WALLOPS/STATS/DIE/SQUIT from every privilege level; each episode ends with DIE or SQUIT by an operator; privilege is a derived variable of the history in the model; distinct = cover tuples of those commands')
-    common.run_case_twins(ctx, res, ("C11",))
     n = sum(c for s, c in shapes.items() if s.startswith(("oper:", "umode:", "kill:", "wallops:", "stats", "die:", "squit:")))
     dies = sum(c for s, c in shapes.items() if s in ("die:ok", "squit:ok"))
     res.extra["privilege_commands"] = n
